@@ -126,14 +126,17 @@ func (g *c45Gen) blob() []byte {
 	if len(g.pool) > 0 && g.rng.Chance(1, 3) {
 		return kit.Pick(g.rng, g.pool)
 	}
-	n := kit.Pick(g.rng, []int{1, 2, 100, 4096, 70000, 300000})
+	n := kit.Pick(g.rng, []int{1, 2, 100, 100, 4096, 4096, 70000})
+	if g.rng.Chance(1, 12) {
+		n = 300000
+	}
 	b := g.rng.Bytes(n)
 	g.pool = append(g.pool, b)
 	return b
 }
 
 func (g *c45Gen) leaf(name string, special bool) *c45Node {
-	n := &c45Node{Name: name, Mode: kit.Pick(g.rng, []os.FileMode{0o644, 0o600, 0o755, 0o4755, 0o2750, 0o1777, 0o400, 0})}
+	n := &c45Node{Name: name, Mode: kit.Pick(g.rng, []os.FileMode{0o644, 0o600, 0o755, 0o755 | os.ModeSetuid, 0o750 | os.ModeSetgid, 0o777 | os.ModeSticky, 0o400, 0})}
 	r := g.rng.Intn(12)
 	switch {
 	case special || r == 0:
@@ -156,7 +159,7 @@ func (g *c45Gen) leaf(name string, special bool) *c45Node {
 }
 
 func (g *c45Gen) dir(name string, depth int, top bool) *c45Node {
-	d := &c45Node{Name: name, Type: data.NodeTypeDir, Mode: kit.Pick(g.rng, []os.FileMode{0o755, 0o700, 0o1777, 0o2775})}
+	d := &c45Node{Name: name, Type: data.NodeTypeDir, Mode: kit.Pick(g.rng, []os.FileMode{0o755, 0o700, 0o777 | os.ModeSticky, 0o775 | os.ModeSetgid})}
 	k := g.rng.Range(0, 6)
 	if top {
 		k = g.rng.Range(2, 7)
@@ -327,15 +330,19 @@ func TestVerifC45(t *testing.T) {
 	defer rec.Finish()
 	env := rec.Env
 	n := env.Pick(150, 5000)
+	// one repository per shard: creating a repository (zstd encoder tables) is very expensive under the
+	// race detector; all trees of the shard go into it (blobs are shared between cases, as in real use)
+	be := kit.NewVBackend(8, true)
+	repo, _ := repository.TestRepositoryWithBackend(t, be, 2, repository.Options{Compression: repository.CompressionOff})
 	for ci := 0; ci < n; ci++ {
 		if !env.Mine(ci) {
 			continue
 		}
-		c45Case(t, rec, ci)
+		c45Case(t, rec, ci, be, repo)
 	}
 }
 
-func c45Case(t *testing.T, rec *kit.Rec, ci int) {
+func c45Case(t *testing.T, rec *kit.Rec, ci int, be *kit.VBackend, repo *repository.Repository) {
 	rng := rec.RNG("case", ci)
 	format := "tar"
 	if ci%2 == 1 {
@@ -358,8 +365,13 @@ func c45Case(t *testing.T, rec *kit.Rec, ci int) {
 	rp := &c45Replay{Case: ci, Format: format, Conn: conn, Delay: kit.Pick(rng, []int{0, 50, 300})}
 	c45Describe(root.Children, "/", &rp.Tree)
 
-	be := kit.NewVBackend(conn, true)
-	repo, _ := repository.TestRepositoryWithBackend(t, be, 2, repository.Options{})
+	t0 := time.Now()
+	dbg := func(what string) {
+		if os.Getenv("C45_DEBUG") != "" {
+			fmt.Fprintf(os.Stderr, "c45 case %d %s at %v\n", ci, what, time.Since(t0))
+		}
+	}
+	be.SetYield(0, nil)
 	ctx := context.Background()
 	byPath := map[string]*data.Node{}
 	var treeID restic.ID
@@ -372,6 +384,7 @@ func c45Case(t *testing.T, rec *kit.Rec, ci int) {
 		rec.Inconclusive("writing the tree failed: %v", err)
 		return
 	}
+	dbg("saved")
 	be.SetYield(rp.Delay/2, rec.RNG("yield", ci))
 	loader := &c45Loader{Loader: repo, rng: rec.RNG("delay", ci), maxUS: rp.Delay, conn: conn}
 
@@ -427,6 +440,7 @@ func c45Case(t *testing.T, rec *kit.Rec, ci int) {
 		rec.Count("file_dumps_compared", 1)
 	}
 
+	dbg("filedumps")
 	// 2. archive
 	var want []c45Entry
 	prefix := strings.TrimPrefix(rootPath, "/")
@@ -449,6 +463,7 @@ func c45Case(t *testing.T, rec *kit.Rec, ci int) {
 		rec.Violation(key, fmt.Sprintf("DumpTree(%s) failed: %v", format, err), rp)
 		return
 	}
+	dbg(fmt.Sprintf("dumped %s bytes=%d loads=%d conn=%d delay=%d", format, buf.Len(), loader.loads.Load(), conn, rp.Delay))
 	var got []c45Entry
 	if format == "tar" {
 		got, err = c45ParseTar(buf.Bytes())
@@ -459,7 +474,9 @@ func c45Case(t *testing.T, rec *kit.Rec, ci int) {
 		rec.Violation("archive-unreadable", fmt.Sprintf("%s archive does not parse: %v", format, err), rp)
 		return
 	}
+	dbg("parsed")
 	c45Compare(rec, rp, root, rootPath, want, got)
+	dbg("compared")
 	rec.Case(kit.Sig(format, conn, rp.Delay, rootPath, strings.Join(rp.Tree, ";")), len(want) > 1)
 	rec.Count("archive_entries_compared", int64(len(want)))
 	rec.Count("special_nodes_in_trees", int64(g.nSpec))
